@@ -358,6 +358,7 @@ type Family struct {
 	Sort string // full array sort
 	Leaf Leaf
 	Root RootKind
+	KeySort string // map value families: sort of the key
 }
 
 func familiesOf(root RootKind, t types.Type) []Family {
